@@ -14,7 +14,7 @@ HEADNOW=$(git -C /repo rev-parse HEAD)
 if [ ! -f $S/.base_head ] || [ "$(cat $S/.base_head)" != "$HEADNOW" ]; then
   rm -rf $S; rsync -a --exclude _build --exclude .git /repo/ $S/
   cmake -G Ninja -S $S -B $S/_build >/dev/null 2>&1 && cmake --build $S/_build -j12 >/dev/null 2>&1 || { echo "clean build failed"; exit 2; }
-  tests > /tmp/sv_base_tests.txt; echo $HEADNOW > $S/.base_head
+  tests > /tmp/sv_base.tests.txt; echo $HEADNOW > $S/.base_head
 fi
 ( cd $OUT && sh ./run_demo.sh $S ) > /tmp/hl_${NAME}_demo_before.txt 2>&1; D0=$?
 ( cd $S && patch -p1 -s --no-backup-if-mismatch < $OUT/patch.diff ) || { echo "patch does not apply"; exit 2; }
@@ -23,7 +23,7 @@ tests > /tmp/hl_${NAME}_after.txt
 ( cd $OUT && sh ./run_demo.sh $S ) > /tmp/hl_${NAME}_demo_after.txt 2>&1; D1=$?
 ( cd $S && patch -R -p1 -s --no-backup-if-mismatch < $OUT/patch.diff; for f in $(grep '^+++ ' $OUT/patch.diff | sed 's|^+++ [ab]/||; s|\t.*||'); do touch $f; done )
 cmake --build $S/_build -j12 >/dev/null 2>&1
-if cmp -s /tmp/sv_base_tests.txt /tmp/hl_${NAME}_after.txt; then T=same; else T=DIFFERENT; fi
+if cmp -s /tmp/sv_base.tests.txt /tmp/hl_${NAME}_after.txt; then T=same; else T=DIFFERENT; fi
 echo "unit tests: $T; demo (property holds) unchanged tree exit=$D0, patched exit=$D1"
 ALARMS=""
 for ID in "$@"; do
